@@ -122,6 +122,10 @@ def checkedAdd (t : Ty) (a b : Int) : Option Int := tryInto t (a + b)
 def checkedSub (t : Ty) (a b : Int) : Option Int := tryInto t (a - b)
 def checkedMul (t : Ty) (a b : Int) : Option Int := tryInto t (a * b)
 
+/-- `a.saturating_sub(b)`: the difference, clamped to the type -/
+def saturatingSub (t : Ty) (a b : Int) : Int :=
+  if a - b < t.min then t.min else if a - b > t.max then t.max else a - b
+
 /-! ### bit operations (the translator emits them for unsigned types only) -/
 
 def band (a b : Int) : Int := ((a.toNat &&& b.toNat : Nat) : Int)
@@ -153,5 +157,40 @@ def trailingZeros (t : Ty) (x : Int) : Int :=
 /-- `x.count_ones()` on an unsigned `t` -/
 def countOnes (t : Ty) (x : Int) : Int :=
   ((((List.range t.bits).filter x.toNat.testBit).length : Nat) : Int)
+
+/-! ### generic code over an ordered type, `std::ops::Range`, `std::ops::RangeInclusive`, `std::cmp::max/min`
+
+A generic parameter `T: PartialOrd` / `T: Ord` of a translated function is a Lean type parameter with
+decidable `≤` and `<`: the comparison operators of the trait.  NOTHING else is assumed of them (no law
+relating `<` to `≤`, no totality): a theorem about a generated generic definition that needs such a law
+has to instantiate `T`, and then the instance is Lean's order on `Nat`/`Int`.  A shared reference `&T` is
+translated as the value (`&A: PartialOrd<&B>` compares the referents). -/
+
+/-- `std::ops::Range<T>` (`start..end`): the two public fields -/
+structure Range (T : Type) where
+  start : T
+  «end» : T
+  deriving DecidableEq, Repr
+
+/-- `std::ops::RangeInclusive<T>` (`start..=end`, never iterated: the `exhausted` flag stays `false`);
+`start()` / `end()` are the accessors -/
+structure RangeInclusive (T : Type) where
+  start : T
+  «end» : T
+  deriving DecidableEq, Repr
+
+/-- `RangeBounds::contains` of `start..end`: `start <= x && x < end` -/
+def Range.contains {T : Type} [LE T] [LT T] [DecidableLE T] [DecidableLT T] (r : Range T) (x : T) : Bool :=
+  decide (r.start ≤ x) && decide (x < r.«end»)
+
+/-- `RangeBounds::contains` of `start..=end`: `start <= x && x <= end` -/
+def RangeInclusive.contains {T : Type} [LE T] [DecidableLE T] (r : RangeInclusive T) (x : T) : Bool :=
+  decide (r.start ≤ x) && decide (x ≤ r.«end»)
+
+/-- `std::cmp::max(a, b)` = `max_by(a, b, Ord::cmp)`: `a` if `cmp(a, b) == Greater`, else `b` -/
+def cmpMax {T : Type} [LT T] [DecidableLT T] (a b : T) : T := if b < a then a else b
+
+/-- `std::cmp::min(a, b)` = `min_by(a, b, Ord::cmp)`: `b` if `cmp(a, b) == Greater`, else `a` -/
+def cmpMin {T : Type} [LT T] [DecidableLT T] (a b : T) : T := if b < a then b else a
 
 end OH.Model.RustInt
